@@ -116,6 +116,9 @@ type Violation struct {
 	Oracle    string `json:"oracle"`
 	Signature string `json:"signature"`
 	Detail    string `json:"detail"`
+	// Case, if set, is the specific variant (fault plan, schedule) of the
+	// evaluated case that failed; it is what goes into the replay file.
+	Case *Case `json:"-"`
 }
 
 // Replay is what a replay file contains.
